@@ -29,13 +29,14 @@ type SrcFile struct {
 }
 
 type Case struct {
-	ID      int
-	Gen     string // generator label (statistics)
-	Pkg     string
-	Files   []SrcFile
-	Primary int  // index of the file that goes through the wuffsfmt path and the model tie
-	Tie     bool // compute the tok/parse tie lines
-	KeepC   bool // return the generated C (for gcc)
+	ID         int
+	Gen        string // generator label (statistics)
+	Pkg        string
+	Files      []SrcFile
+	Primary    int  // index of the file that goes through the wuffsfmt path and the model tie
+	Tie        bool // compute the tok/parse tie lines
+	KeepC      bool // return the generated C (for gcc)
+	TimeoutSec int  // watchdog override (0 = default)
 }
 
 type Stage struct {
@@ -116,19 +117,37 @@ func panicSite() string {
 	pcs := make([]uintptr, 64)
 	n := runtime.Callers(2, pcs)
 	frames := runtime.CallersFrames(pcs[:n])
+	helper := ""
 	for {
 		f, more := frames.Next()
 		if strings.HasPrefix(f.Function, "github.com/google/wuffs/") {
 			fn := f.Function[strings.LastIndexByte(f.Function, '/')+1:]
+			pkg := fn
+			if i := strings.IndexByte(fn, '.'); i >= 0 {
+				pkg = fn[:i]
+			}
 			// "parse.(*parser).parseIterateAssignNode" -> "parseIterateAssignNode"
 			if i := strings.LastIndexByte(fn, '.'); i >= 0 {
 				fn = fn[i+1:]
 			}
-			return filepath.Base(f.File) + ":" + fn
+			site := filepath.Base(f.File) + ":" + fn
+			// An accessor of lang/ast or lang/token (e.g. (*Expr).Operator on a nil
+			// node) is not the culprit: name its caller too.
+			if (pkg == "ast" || pkg == "token") && helper == "" && more {
+				helper = site
+				continue
+			}
+			if helper != "" {
+				return site + "(" + helper + ")"
+			}
+			return site
 		}
 		if !more {
 			break
 		}
+	}
+	if helper != "" {
+		return helper
 	}
 	return "unknown"
 }
